@@ -4,6 +4,7 @@ list_bind_options, find_root_candidates, decomposition, conditioned) and the end
 -/
 import Driver.E2E
 import PmVerif.Spec.PGSpec
+import PmVerif.Spec.PGAnch
 namespace Drv
 open Pm
 
@@ -240,6 +241,9 @@ def pgE2E : E2EDom PGKey Nat PGPred PortGraph PGMap PgPat :=
     convert := fun p => match p.2 with | none => none | some r => pgConstraints p.1 r,
     consEq := pgConsListEq, extraKeys := fun _ => [],
     judge := some pgJudge, known := pgKnown, orderedBaseline := false,
+    programOK := some fun a _ cvs =>
+      if (cvs.any fun o => match o with | some cs => pgSigMultiRoot cs | none => false) then 2
+      else if pgProgramOK a cvs then 1 else 0,
     knownC03 := fun p => match pgKnown p with | some "pg:multiRoot" => some "pg:multiRoot" | _ => none }
 
 end Drv
